@@ -12,6 +12,7 @@ CONSTANTS
   Record = FALSE
   Defect_NoArmOnSync = FALSE
   Defect_TakeoverKeepsOrigin = FALSE
+  Defect_EchoRemovesFlipped = FALSE
   Defect_ClientSetBeforeOwner = TRUE
 VIEW StateView
 CONSTRAINT NoRange
